@@ -16,7 +16,7 @@ from EasyFEA.Simulations.Solvers import ResolType
 
 from vlib import c18_hyper as hx
 from vlib import gen_mesh as gm
-from vlib.runner import Inconclusive, Sub
+from vlib.runner import Inconclusive, Sub, env_seed
 
 PROPERTY = "C18"
 RULE = (
@@ -153,6 +153,24 @@ def check_law(case, rec):
                    and np.abs(Q - np.eye(3)).max() > 1e-6 and nE > 1e-3)
 
 
+def enum_law_grid(tier):
+    """every built-in law x every 2D/3D element type (plus each user energy on two types per
+    dimension): one deterministic case per pair, parameters derived from VERIF_SEED"""
+    seed = env_seed()
+    i = 0
+    for name in hx.LAWS + hx.USER:
+        types = gm.T2D + gm.T3D if name in hx.LAWS else ["TRI6", "QUAD4", "TETRA4", "HEXA8"]
+        for et in types:
+            i += 1
+            rng = np.random.default_rng([seed, 18, i])
+            dim = gm.dim_of(et)
+            lam = [0.6 + int(k) / 10.0 for k in rng.integers(0, 11, dim)]
+            yield dict(mesh=hx.mesh_recipe_rng(et, rng), law=hx.law_record_rng(name, dim, rng),
+                       U=dict(lam=lam, Q=hx.rot_record_rng(dim, rng)), R=hx.rot_record_rng(dim, rng),
+                       Q=hx.rot_record_rng(dim, rng), dF=int(rng.integers(0, 1000)),
+                       mt=["rigi", "mass"][int(rng.integers(0, 2))])
+
+
 # ------------------------------------------------------------------------------------------
 # (b) autodiff: the AutoDiff law of an energy equals the hand-coded law of the same energy
 
@@ -278,6 +296,40 @@ def operator_cases(draw):
         c["eta"] = draw(st.integers(1, 12)) / 4.0
         c["vseed"] = draw(st.integers(0, 999))
     return c
+
+
+def enum_operator_grid(tier):
+    """every operator x every element type it applies to: one deterministic case per pair"""
+    seed = env_seed()
+    i = 0
+    for op in OPS:
+        if op == "pressure":
+            types = [(t, True) for t in SURF] + [(t, False) for t in gm.T3D]
+        else:
+            types = [(t, None) for t in gm.T2D + gm.T3D]
+        for et, embed in types:
+            i += 1
+            rng = np.random.default_rng([seed, 1818, i])
+            dim = gm.dim_of(et)
+            c = dict(op=op, d=int(rng.integers(0, 1000)), seed=int(rng.integers(0, 1000)),
+                     amp=int(rng.integers(2, 9)) / 20.0, mt=["rigi", "mass"][int(rng.integers(0, 2))],
+                     mesh=hx.mesh_recipe_rng(et, rng))
+            sub = None if rng.integers(0, 2) else int(rng.integers(0, 100))
+            if op == "pressure":
+                c.update(embed=hx.rot_record_rng(3, rng) if embed else None, p=[-1.5, 0.75, 2.0][int(rng.integers(0, 3))],
+                         pfield=None if rng.integers(0, 2) else int(rng.integers(0, 100)), subset=sub)
+            elif op == "contact":
+                c.update(normal=hx.rot_record_rng(dim, rng), offset=int(rng.integers(-4, 5)) / 20.0,
+                         penalty=int(rng.integers(1, 41)) / 4.0, subset=sub)
+            else:
+                c.update(law=hx.law_record_rng(hx.LAWS[i % len(hx.LAWS)], dim, rng),
+                         thickness=[1.0, 0.5, 2.0][int(rng.integers(0, 3))] if dim == 2 else 1.0,
+                         seed2=int(rng.integers(0, 1000)), step=[1.0, 0.3, 0.03][int(rng.integers(0, 3))],
+                         coefK=[0.5, 1.0, 0.75][int(rng.integers(0, 3))], nPoints=int(rng.integers(1, 6)),
+                         tol=[None, 1e-4][int(rng.integers(0, 2))], tau=[-1.0, 0.75, 2.0][int(rng.integers(0, 3))],
+                         tau_kind=["scalar", "elem", "gauss"][int(rng.integers(0, 3))], fib=int(rng.integers(0, 100)),
+                         eta=int(rng.integers(1, 13)) / 4.0, vseed=int(rng.integers(0, 1000)))
+            yield c
 
 
 def _dofs(connect, dof_n):
@@ -650,26 +702,36 @@ def check_system(case, rec):
 # (d) energy conservation of free motion: midpoint + gonzalez / quadrature
 
 
+HEAVY = ("HEXA20", "HEXA27", "PRISM15", "PRISM18", "TETRA10", "TRI15")
+
+
 @st.composite
 def energy_cases(draw):
-    light = [t for t in gm.T2D + gm.T3D if t not in ("HEXA20", "HEXA27", "PRISM15", "PRISM18", "TETRA10", "TRI15")]
+    light = [t for t in gm.T2D + gm.T3D if t not in HEAVY]
     mr = draw(hx.mesh_recipes(types=light if draw(st.integers(0, 3)) else None))
     dim = gm.dim_of(mr["elemType"])
+    heavy = mr["elemType"] in HEAVY
     option = draw(st.sampled_from(["gonzalez", "gonzalez", "quadrature_tol", "quadrature_svk"]))
     if option == "quadrature_svk":  # quadratic energy in E: every Clenshaw-Curtis rule is exact
         law = draw(hx.law_records(dim, names=["SaintVenantKirchhoff"]))
         law["K"] = 0.0
     else:
         law = draw(hx.law_records(dim, fields_ok=False))
+    dt = draw(st.sampled_from([0.02, 0.05, 0.1, 0.2, 0.4]))
+    # velocity gradients 0.05..0.3 (moduli and density are O(1)): strains stay moderate so that most runs
+    # converge; laws without volumetric stiffness get a bulk term (K>=0.5) for the same reason
+    vamp = draw(st.integers(1, 6)) / 20.0
+    if law["name"] in ("MooneyRivlin", "CiarletGeymonat", "HolzapfelOgden"):
+        law["K"] = max(law["K"], 0.5)
     return dict(mesh=mr, law=law, option=option, algo="midpoint",
                 stress="gonzalez" if option == "gonzalez" else "quadrature",
                 nPoints=draw(st.integers(1, 4)),
-                tol=draw(st.sampled_from([1e-6, 1e-9])) if option == "quadrature_tol" else None,
+                tol=draw(st.sampled_from([1e-5, 1e-8])) if option == "quadrature_tol" else None,
                 thickness=draw(st.sampled_from([1.0, 0.5, 2.0])) if dim == 2 else 1.0,
-                dt=draw(st.sampled_from([0.02, 0.05, 0.1, 0.2, 0.5])), rho=draw(st.integers(2, 8)) / 4.0,
-                nsteps=draw(st.integers(20, 100)), vseed=draw(st.integers(0, 999)),
-                vamp=draw(st.integers(1, 10)) / 10.0, seed=draw(st.integers(0, 999)),
-                amp=draw(st.integers(0, 4)) / 20.0)
+                dt=dt, rho=draw(st.integers(2, 8)) / 4.0,
+                nsteps=draw(st.integers(20, 40 if heavy else 60 if option == "quadrature_tol" else 100)),
+                vseed=draw(st.integers(0, 999)), vamp=round(vamp, 6), seed=draw(st.integers(0, 999)),
+                amp=draw(st.integers(0, 3)) / 20.0, clamp=draw(st.booleans()))
 
 
 def _int_abs_dW(mat, groups, u0, u1, thickness):
@@ -683,6 +745,10 @@ def _int_abs_dW(mat, groups, u0, u1, thickness):
 
 
 def check_energy(case, rec):
+    """E_{n+1}-E_n = r_{n+1}.(u_{n+1}-u_n) for a discrete-gradient stress under the midpoint rule, r the
+    residual left by Newton: |E_n-E_0| <= sum_k rho_k |du_k| (+ energyTol * int|dW| per step for the
+    adaptive path quadrature), rho_k the residual norm the stopping rule tested last (an upper bound of
+    the accepted one for a converging iteration; factor 2 of slack)."""
     mr = case["mesh"]
     dim = gm.dim_of(mr["elemType"])
     mesh = hx.build_mesh(mr)
@@ -690,9 +756,24 @@ def check_energy(case, rec):
     simu, mat = _make_simu(case, mesh, g, dim, absTol=1e-8)
     pt = simu.problemType
     sig = dict(option=case["option"], law=case["law"]["name"], dim=dim)
-    rec.label("energy:" + case["option"], "law:" + case["law"]["name"], "elem:" + mr["elemType"], f"dt:{case['dt']}")
+    rec.label("energy:" + case["option"], "law:" + case["law"]["name"], "elem:" + mr["elemType"], f"dt:{case['dt']}",
+              "clamped" if case["clamp"] else "free")
     u = _safe_u(mesh, g, dim, case["seed"], case["amp"], MatrixType.rigi) if case["amp"] else np.zeros(mesh.Nn * dim)
-    v = hx.smooth_u(mesh, dim, case["vseed"], case["vamp"], noise=0.05)
+    v = hx.smooth_u(mesh, dim, case["vseed"], 1.0, noise=0.05)
+    nodes = None
+    if case["clamp"]:  # clamp the x=0 face of the base cell (reactions do no work); fields ramp up from it
+        base = hx._base(mr["elemType"], int(mr["cells"]), int(mr["layers"]))
+        xb = _np(base.coord)[:, 0]
+        nodes = np.where(np.abs(xb) < 1e-9)[0]
+        ramp = np.repeat(xb / xb.max(), dim)
+        u = u * ramp
+        v = v * ramp
+    gv = _np(HyperElasticState(g, v, MatrixType.rigi).Compute_F()) - np.eye(3)
+    v *= case["vamp"] / np.abs(gv).max()  # largest velocity-gradient entry = vamp
+    if not _state_J_ok(g, u, MatrixType.rigi, 0.5):
+        raise Inconclusive("no admissible initial state")
+    if nodes is not None:
+        simu.add_dirichlet(nodes, [0.0] * dim, simu.Get_unknowns())
     simu._Set_solutions(pt, u.copy(), v.copy(), np.zeros_like(u))
     thick = case["thickness"] if dim == 2 else 1.0
     groups = gm.main_groups(mesh)
@@ -706,41 +787,40 @@ def check_energy(case, rec):
                 simu.Solve()
         except AssertionError as e:  # the claim is conditional on convergence of the step
             msg = str(e)
-            if "did not converged" in msg or "det(F) < 0" in msg:
-                raise Inconclusive("Newton did not converge / det F < 0 in a step")
+            if "did not converged" in msg:
+                raise Inconclusive("Newton did not converge in a step")
+            if "det(F) < 0" in msg:
+                raise Inconclusive("det F < 0 during a step")
             raise
-        if M is None:
-            M = simu.Get_K_C_M_F(pt)[2]
-            W0 = float(simu._Calc_W()) if False else None
         u_new = simu._Get_u_n(pt)
         v_new = simu._Get_v_n(pt)
-        if k == 0:
-            # energy of the initial state with the same mass matrix
-            simu_W0 = _int_W(mat, groups, u, thick)
-            E.append(0.5 * float(v @ (M @ v)) + simu_W0)
-            Wn.append(simu_W0)
+        if M is None:
+            M = simu.Get_K_C_M_F(pt)[2]
+            W0 = _int_W(mat, groups, u, thick)
+            E.append(0.5 * float(v @ (M @ v)) + W0)
+            Wn.append(W0)
         W = float(simu._Calc_W())
         Wn.append(W)
         E.append(0.5 * float(v_new @ (M @ v_new)) + W)
-        rho_k = float(simu._Simu__list_norm_r[-1])  # residual norm the stopping rule accepted
+        rho_k = float(simu._Simu__list_norm_r[-1])  # residual norm the stopping rule tested last
         step = rho_k * float(np.linalg.norm(u_new - u_old))
         if case["tol"]:
-            nPts = np.asarray(simu._HyperElastic__nPts_e)
-            if nPts.max() >= 33:
+            if np.asarray(simu._HyperElastic__nPts_e).max() >= 33:
                 raise Inconclusive("adaptive quadrature hit its point cap")
             step += case["tol"] * _int_abs_dW(mat, groups, u_old, u_new, thick)
         bound.append(bound[-1] + step)
     E = np.array(E)
     Wn = np.array(Wn)
-    E0 = E[0]
     scale = float(0.5 * float(v @ (M @ v)) + np.abs(Wn).max())
-    drift = np.abs(E - E0)
-    excess = float(np.max(drift - 2.0 * np.array(bound)))
+    drift = np.abs(E - E[0])
+    allowed = 2.0 * np.array(bound) + 1e-9 * scale
     rec.note_max("energy_drift_rel:" + case["option"], float(drift.max() / scale))
-    rec.close(max(excess, 0.0), scale, 1e-9, "energy_conserved",
-              f"{case['option']} {case['law']['name']} {mr['elemType']} dt={case['dt']}: max|E_n-E_0|={drift.max():.3e} "
-              f"(E0={E0:.3e}) exceeds the Newton-residual bound {2 * bound[-1]:.3e}", **sig)
-    rec.nontrivial(E0 > 0 and float(Wn.max() - Wn.min()) > 1e-4 * scale)
+    rec.note_max("energy_drift_over_allowed:" + case["option"], float(np.max(drift / allowed)))
+    rec.require(bool(np.all(drift <= allowed)), "energy_conserved",
+                f"{case['option']} {case['law']['name']} {mr['elemType']} dt={case['dt']} steps={case['nsteps']}: "
+                f"max|E_n-E_0|={drift.max():.3e} (E_0={E[0]:.3e}) exceeds the bound {allowed[-1]:.3e} implied by the "
+                f"Newton stopping rule", **sig)
+    rec.nontrivial(E[0] > 0 and float(Wn.max() - Wn.min()) > 1e-4 * scale)
 
 
 def _int_W(mat, groups, u, thickness):
@@ -753,10 +833,12 @@ def _int_W(mat, groups, u, thickness):
 
 SUBS = [
     Sub("law_derivatives", check_law, gen=law_cases, quick=150, thorough=2500, shards=8),
+    Sub("law_grid", check_law, enum=enum_law_grid, doc="every law x every element type"),
     Sub("autodiff", check_autodiff, gen=autodiff_cases, quick=40, thorough=400, shards=4),
     Sub("operators", check_operator, gen=operator_cases, quick=200, thorough=2500, shards=8),
+    Sub("operator_grid", check_operator, enum=enum_operator_grid, doc="every operator x every element type"),
     Sub("system", check_system, gen=system_cases, quick=100, thorough=1500, shards=6),
-    Sub("energy_conservation", check_energy, gen=energy_cases, quick=16, thorough=100, shards=10),
+    Sub("energy_conservation", check_energy, gen=energy_cases, quick=14, thorough=100, shards=10),
 ]
 
 LEVEL_TEXT = ("Hypothesis-generated deformation states, laws, element types, operator states and free-motion runs checked "
